@@ -54,6 +54,12 @@ def native_check(cfg, env=None, seed=0, scale=1.0):
         pn = st.probability(space, zz).numpy() * (0.1 if zform == "awkward float" else 1.0)
         if not np.allclose(pn * Z, marg, rtol=1e-12, atol=0) or abs(pn.sum() - 1.0) > 1e-12:
             fails.append(("probability(v, Z) with Z as a %s: not exp(-E)/Z at double precision" % zform, float(np.max(np.abs(pn * Z / marg - 1.0)))))
+    # basis states handed over in other tensor types
+    for tname, conv in (("int64", lambda t: t.long()), ("bool", lambda t: t.bool()), ("float32", lambda t: t.float()), ("uint8", lambda t: t.to(torch.uint8))):
+        vv = conv(space)
+        if not C.close(st.psi(vv).numpy(), psi) or not C.close(st.probability(vv).numpy(), prob) or not C.close(st.amplitude(vv).numpy(), amp) \
+                or not C.close(st.phase(vv).numpy(), ph) or not C.close(st.psi(vv[-1]).numpy(), psi[:, -1]):
+            fails.append(("psi / probability / amplitude / phase of basis states given as a %s tensor differ from the double-precision call" % tname, None))
     # vector call forms
     for r in (0, 2 ** nv - 1):
         v = space[r]
